@@ -304,8 +304,8 @@ func (d *TTMLInDuration) UnmarshalText(i []byte) (err error) {
 		return
 	}
 
-	// Extract clock time frames
-	if indexes := ttmlRegexpClockTimeFrames.FindStringIndex(text); indexes != nil {
+	// Extract clock time frames: frames come after hours, minutes and seconds
+	if indexes := ttmlRegexpClockTimeFrames.FindStringIndex(text); indexes != nil && strings.Count(text, ":") == 3 {
 		// Parse frames
 		var s = text[indexes[0]+1 : indexes[1]]
 		if d.frames, err = strconv.Atoi(s); err != nil {
